@@ -157,8 +157,10 @@ class FitsTiler(object):
 
                 if os.path.exists(os.path.join(self.out_dir, "properties")):
                     self._copy_hips_properties_to_builder()
+                else:
+                    self._restore_builder_from_index()
 
-                return
+                return self
 
         if self.tiling_method == TilingMethod.HIPS:
             self._tile_hips(cli_progress, parallel)
@@ -396,6 +398,33 @@ class FitsTiler(object):
             os.symlink(src=absolute_path, dst=link_path)
 
         return dir
+
+    def _restore_builder_from_index(self):
+        """
+        Restore the builder's data set description from the ``index_rel.wtml``
+        file written by the run that originally produced the output directory.
+        """
+        from wwt_data_formats.folder import Folder
+        from wwt_data_formats.imageset import ImageSet
+        from wwt_data_formats.place import Place
+
+        index_path = os.path.join(self.out_dir, "index_rel.wtml")
+
+        if not os.path.exists(index_path):
+            return
+
+        folder = Folder.from_file(index_path)
+
+        for child in folder.children:
+            if isinstance(child, Place) and child.foreground_image_set is not None:
+                self.builder.place = child
+                self.builder.imgset = child.foreground_image_set
+                return
+
+            if isinstance(child, ImageSet):
+                self.builder.imgset = child
+                self.builder.place.foreground_image_set = child
+                return
 
     def _copy_hips_properties_to_builder(self):
         hips_properties = dict()
